@@ -395,7 +395,12 @@ def function_form_case(idx, rng, P, rep):
         vals = dict(zip(order[:npos], args))
         vals.update(kws)
         calls.append((vals['a'], vals['a2'], vals['b']))
-    param.depends(*[pobj[n] for n in order[:npos]], watch=True, **{n: pobj[n] for n in order[npos:]})(f)
+    extra_kw = {}
+    if rng.random() < 0.25:
+        # the same Parameter named a second time (under another keyword): still one dependency
+        extra_kw['again'] = pobj[rng.choice(order)]
+        rep.count('function_form_duplicate_dependency')
+    param.depends(*[pobj[n] for n in order[:npos]], watch=True, **{n: pobj[n] for n in order[npos:]}, **extra_kw)(f)
     model = dict(a=1.0, a2=2.0, u=3.0, b=4.0)
     VAL = [1.0, 2.0, 1, True, 5.5, float('nan'), 4.0]
     desc = dict(form='function', deps=[('A.' if n != 'b' else 'B.') + n for n in order], positional=npos)
